@@ -258,7 +258,7 @@ class C08(World):
             raise Inapplicable()
         if cfg["route"] == "load_mesh" and kind != "mesh":
             raise Inapplicable()
-        if cfg["route"] == "load_path" and fmt not in ("dxf", "svg", "dict"):
+        if cfg["route"] == "load_path" and fmt not in ("dxf", "svg", "dict") and not (fmt == "ply" and kind == "path3d"):
             raise Inapplicable()
         want = fw.content(obj)
         before = snapshot(obj)
